@@ -109,11 +109,16 @@ def build_color_doc(spec, shared=None):
         dfs.append(df)
         bodies.append(body)
         if "header" in comp:
-            headers.append([rtf.RTFColumnHeader(text=["~H%d.%d~" % (si + 1, j + 1) for j in range(m)], **comp_kw("header"))])
+            if spec.get("header_auto"):
+                # no text of its own: the labels are the column names
+                headers.append([rtf.RTFColumnHeader(**comp_kw("header"))])
+            else:
+                headers.append([rtf.RTFColumnHeader(text=["~H%d.%d~" % (si + 1, j + 1) for j in range(m)], **comp_kw("header"))])
         else:
             headers.append([None])
     page = rtf.RTFPage(nrow=spec.get("nrow", 40), **({"page_footnote": spec["page_footnote"]} if spec.get("page_footnote") else {}),
-                       **({"margin": list(spec["margin"])} if spec.get("margin") else {}))
+                       **({"margin": list(spec["margin"])} if spec.get("margin") else {}),
+                       **({"use_color": spec["use_color"] == "true"} if spec.get("use_color", "default") != "default" else {}))
     if path == "single":
         hk = {} if spec.get("default_header") else {"rtf_column_header": headers[0] if "header" in comp else []}
         return rtf.RTFDocument(df=dfs[0], rtf_body=bodies[0], rtf_page=page, **hk, **kw)
@@ -124,7 +129,7 @@ def build_color_doc(spec, shared=None):
 # observation: every colour / font reference with the element that carries it
 # --------------------------------------------------------------------------------------
 _CELL = re.compile(r"^c(\d+)\.(\d+)\.(\d+)$")
-_HDR = re.compile(r"^~H(\d+)\.(\d+)~$")
+_HDR = re.compile(r"^~[HD](\d+)\.(\d+)~$")        # header text of its own, or a column name used as header label
 PARA_ROLES = {"~T~": "title", "~SL~": "subline", "~FN~": "footnote", "~SRC~": "source", "~PH~": "pghdr", "~PF~": "pgftr"}
 
 
